@@ -192,3 +192,206 @@ class CombReal:
             except BaseException:
                 pass
         self.env.close()
+
+
+# ======================================================================== C37: CoroLang
+_CV = contextvars.ContextVar("verif_corolang", default=0)
+
+
+class Boom(Exception):
+    pass
+
+
+def _emit_block(block, form, ind, out, opts):
+    """Append python source lines for a CoroLang block.  form: 'dec' (generator body for
+    @gen.coroutine) or 'nat' (async def body)."""
+    pad = "    " * ind
+    aw = "yield " if form == "dec" else "await "
+    if not block:
+        out.append(pad + "pass")
+    for s in block:
+        op, a, b = s["op"], s["a"], s["b"]
+        if op == "eff":
+            out.append(pad + "log.append(('eff', [%d], ''))" % a)
+        elif op == "await":
+            out.append(pad + "x = %sF[%d]" % (aw, a))
+            out.append(pad + "log.append(('got', [x], ''))")
+        elif op == "list":
+            if form == "dec":
+                out.append(pad + "x = yield [F[%d], F[%d]]" % (a, b))
+            else:
+                out.append(pad + "x = await gen.multi([F[%d], F[%d]])" % (a, b))
+            out.append(pad + "log.append(('got', list(x), ''))")
+        elif op == "dict":
+            if form == "dec":
+                out.append(pad + "x = yield {'p': F[%d], 'q': F[%d]}" % (a, b))
+            else:
+                out.append(pad + "x = await gen.multi({'p': F[%d], 'q': F[%d]})" % (a, b))
+            out.append(pad + "log.append(('got', [x['p'], x['q']] if list(x) == ['p', 'q'] else ['badkeys'], ''))")
+        elif op == "moment":
+            if form == "dec":
+                out.append(pad + ("yield None" if opts.get("moment_none") else "yield gen.moment"))
+            else:
+                out.append(pad + "await asyncio.sleep(0)")
+        elif op == "sub":
+            out.append(pad + "x = %ssub%d()" % (aw, a))
+            out.append(pad + "log.append(('sub', [0 if x is None else x], ''))")
+        elif op == "ret":
+            out.append(pad + "return %d" % a)
+        elif op == "raise":
+            out.append(pad + "raise Boom()")
+        elif op == "rdctx":
+            out.append(pad + "log.append(('ctx', [CV.get()], ''))")
+        elif op == "setctx":
+            out.append(pad + "CV.set(%d)" % a)
+        elif op == "try":
+            out.append(pad + "try:")
+            _emit_block(s["B"], form, ind + 1, out, opts)
+            if s["H"]:
+                out.append(pad + "except Exception as e:")
+                out.append(pad + "    log.append(('caught', [], type(e).__name__))")
+                _emit_block(s["H"], form, ind + 1, out, opts)
+            if s["F"]:
+                out.append(pad + "finally:")
+                _emit_block(s["F"], form, ind + 1, out, opts)
+        else:
+            raise ValueError(op)
+
+
+def emit_program(prog, subs, form, opts):
+    """Python source of `make(F, log, CV, gen, asyncio, Boom)` returning the coroutine function of
+    the given form.  Sub-coroutines are native coroutines (opts['sub_dec']: @gen.coroutine
+    generators instead) appending to the same log."""
+    out = ["def make(F, log, CV, gen, asyncio, Boom):"]
+    for i, body in enumerate(subs, 1):
+        if opts.get("sub_dec"):
+            out.append("    @gen.coroutine")
+            out.append("    def sub%d():" % i)
+            _emit_block(body, "dec", 2, out, opts)
+            if not _has_await(body):
+                out.append("        if False: yield")
+        else:
+            out.append("    async def sub%d():" % i)
+            _emit_block(body, "nat", 2, out, opts)
+    if form == "dec":
+        out.append("    @gen.coroutine")
+        out.append("    def main():")
+    else:
+        out.append("    async def main():")
+    _emit_block(prog, form, 2, out, opts)
+    out.append("    return main")
+    return "\n".join(out) + "\n"
+
+
+def _has_await(block):
+    for s in block:
+        if s["op"] in ("await", "list", "dict", "moment", "sub"):
+            return True
+        if s["op"] == "try" and (_has_await(s["B"]) or _has_await(s["H"]) or _has_await(s["F"])):
+            return True
+    return False
+
+
+_CODE_CACHE = {}
+
+
+def _compiled(prog, subs, form, opts):
+    import json
+    key = (json.dumps(prog, sort_keys=True), json.dumps(subs, sort_keys=True), form, tuple(sorted(opts.items())))
+    c = _CODE_CACHE.get(key)
+    if c is None:
+        src = emit_program(prog, subs, form, opts)
+        c = _CODE_CACHE[key] = (compile(src, "<corolang-%s>" % form, "exec"), src)
+        if len(_CODE_CACHE) > 20000:
+            _CODE_CACHE.clear()
+    return c
+
+
+def _cval(r):
+    return [0] if r is None else [r] if isinstance(r, int) and not isinstance(r, bool) else [repr(r)]
+
+
+class CoroReal:
+    """Both forms of one CoroLang program on one virtual loop, awaiting the same futures.
+
+    opts: moment_none (generator yields None instead of gen.moment), sub_dec (sub-coroutines are
+    @gen.coroutine generators), forms (which forms to run)."""
+
+    FORMS = ("dec", "nat")
+
+    def __init__(self, cfg, opts=None):
+        from tornado import gen
+        from tornado.concurrent import Future
+        self.env = Env()
+        self.opts = dict(opts or {})
+        self.F = {f: Future() for f in (1, 2, 3)}
+        self.logs = {}
+        self.mains = {}
+        self.outs = {}
+        self.src = {}
+        for form in self.FORMS:
+            code, src = _compiled(cfg["prog"], cfg["subs"], form, self.opts)
+            ns = {}
+            exec(code, ns)
+            self.logs[form] = []
+            self.mains[form] = ns["make"](self.F, self.logs[form], _CV, gen, asyncio, Boom)
+            self.src[form] = src
+        self.err = {}
+        self.caller_ctx = None
+        self.applog = _LogCount()
+        logging.getLogger("tornado.application").addHandler(self.applog)
+        logging.getLogger("tornado.application").propagate = False
+
+    def proj(self, form):
+        out = ostate(self.outs.get(form), _cval) if form in self.outs else {"s": "pending", "v": [], "e": ""}
+        if self.err.get(form):
+            out = {"s": "raised", "v": [], "e": self.err[form]}
+        return {"log": [{"t": t, "v": list(v), "e": e} for (t, v, e) in self.logs[form]], "out": out}
+
+    def step(self, act, args):
+        if act == "start":
+            _CV.set(1)                       # the caller's context
+            for form in self.FORMS:
+                try:
+                    if form == "dec":
+                        self.outs[form] = self.mains[form]()
+                    else:
+                        self.outs[form] = asyncio.ensure_future(self.mains[form](), loop=self.env.loop)
+                except (KeyboardInterrupt, SystemExit):
+                    raise
+                except BaseException as e:
+                    self.err[form] = type(e).__name__
+            self.env.settle()
+            self.caller_ctx = _CV.get()
+        elif act == "complete":
+            f, o = args
+            fut = self.F[f]
+            if o == "ok":
+                fut.set_result(10 + f)
+            elif o == "exc":
+                fut.set_exception(_exc_class("E%d" % f)())
+            else:
+                fut.cancel()
+            self.env.settle()
+        else:
+            raise ValueError(act)
+        return {form: self.proj(form) for form in self.FORMS}
+
+    def uncaught(self):
+        return [type(c.get("exception")).__name__ for c in self.env.loop.uncaught]
+
+    def close(self):
+        logging.getLogger("tornado.application").removeHandler(self.applog)
+        for f in list(self.F.values()) + list(self.outs.values()):
+            try:
+                if f.done() and not f.cancelled():
+                    f.exception()
+                elif not f.done():
+                    f.cancel()
+            except BaseException:
+                pass
+        try:
+            self.env.settle()
+        except BaseException:
+            pass
+        self.env.close()
